@@ -634,6 +634,17 @@ func ruleG11j(c *Ctx) *RuleResult {
 				return res
 			case *ssa.Const:
 				return "a constant reaches the language on some path: the language the user gave is dropped there"
+			case *ssa.Call:
+				// a function applied to the track's language: the announced value is whatever that function returns
+				for _, a := range x.Call.Args {
+					if judge(a, depth+1) == "" {
+						name := "a function value"
+						if g := x.Call.StaticCallee(); g != nil {
+							name = FuncName(g)
+						}
+						return "the track's language is passed through " + name + " before it is stored: the announced LANGUAGE is no longer the value the user gave (C16: every rendition appears with its name and language)"
+					}
+				}
 			case *ssa.UnOp:
 				if al, ok := x.X.(*ssa.Alloc); ok && x.Op == token.MUL {
 					res := ""
@@ -648,6 +659,60 @@ func ruleG11j(c *Ctx) *RuleResult {
 				}
 			}
 			return "?"
+		}
+		if nameV, ok := cl.fields[c.Field("", "muxerStream", "name")]; ok {
+			if tn := c.Field("", "Track", "Name"); tn != nil {
+				nkey := fmt.Sprintf("%s|stream-name#%d", FuncName(cl.fn), n)
+				nwhat := "where the stream's name comes from the track, it is the track's name itself"
+				bad := ""
+				seen := map[ssa.Value]bool{}
+				var fromTrack func(v ssa.Value, d int) bool
+				fromTrack = func(v ssa.Value, d int) bool {
+					v = stripConv(v)
+					if f, _ := loadedField(v); f == tn {
+						return true
+					}
+					return false
+				}
+				var walk func(v ssa.Value, d int)
+				walk = func(v ssa.Value, d int) {
+					if v == nil || d > 6 || seen[v] {
+						return
+					}
+					seen[v] = true
+					v = stripConv(v)
+					switch x := v.(type) {
+					case *ssa.Phi:
+						for _, e := range x.Edges {
+							walk(e, d+1)
+						}
+					case *ssa.Call:
+						for _, a := range x.Call.Args {
+							if fromTrack(a, 0) {
+								g := "a function value"
+								if f := x.Call.StaticCallee(); f != nil {
+									g = FuncName(f)
+								}
+								bad = "Track.Name is passed through " + g + " before it is stored: the announced NAME is no longer the value the user gave"
+							}
+						}
+					case *ssa.UnOp:
+						if al, ok := x.X.(*ssa.Alloc); ok && x.Op == token.MUL {
+							for _, ref := range *al.Referrers() {
+								if st, ok := ref.(*ssa.Store); ok && st.Addr == ssa.Value(al) {
+									walk(st.Val, d+1)
+								}
+							}
+						}
+					}
+				}
+				walk(nameV, 0)
+				if bad == "" {
+					r.ok(nkey, c.Pos(cl.alloc.Pos()), FuncName(cl.fn), nwhat, "no function is applied to Track.Name on its way to the stream")
+				} else {
+					r.fail(nkey, c.Pos(cl.alloc.Pos()), FuncName(cl.fn), nwhat, bad)
+				}
+			}
 		}
 		switch w := judge(v, 0); w {
 		case "":
